@@ -18,7 +18,7 @@ LENSES = {
                  ("subs_tensor", None), ("subs_chain", None), ("binder_indep", None), ("binder_names", 40000), ("mixed_contraction", None), ("semiring_addmul", 30000),
                  ("semiring_logaddexp", 30000), ("semiring_maxadd", 20000), ("semiring_orand", 20000),
                  ("gauss_pointwise", None), ("delta_ops", 40000), ("negred", None), ("core_moreops", None),
-                 ("core_intops", None), ("delta_integ", 20000), ("delta_indep", None)],
+                 ("core_intops", None), ("delta_integ", 20000), ("delta_indep", None), ("delta_multi", None)],
 }
 
 
